@@ -433,8 +433,15 @@ def isolation(report, db, cg, M):
             a = ast.unparse(c.args[0]) if c.args else None
             remaining = '%s - len(%s.get_writable())' % (lname, buf)
             in_loop = bool(n.loops)
-            if a == remaining or (a == lname and not in_loop
-                                  and not first_seen):
+            rem_ok = a == remaining
+            if c.args and isinstance(c.args[0], ast.BinOp) and isinstance(
+                    c.args[0].op, ast.Sub) and \
+                    ast.unparse(c.args[0].left) == lname and \
+                    ast.unparse(c.args[0].right) in \
+                    shared.received_length_exprs(rp, buf):
+                rem_ok = True
+            if rem_ok or (a == lname and not in_loop
+                          and not first_seen):
                 report.ok(R, 'stream.read(%s)' % a)
                 if a == lname:
                     first_seen = True
